@@ -243,3 +243,15 @@ def store_level(ctx, f, node, expr, attr="_dict", depth=0):
             return lv if lv is None or lv >= 0 else None
         return None
     return None
+
+
+def bind_args(call, params):
+    """{param: arg expr} for a call against an explicit parameter list (positional, then keywords); None on */** or a surplus."""
+    if any(isinstance(a, ast.Starred) for a in call.args) or any(k.arg is None for k in call.keywords) or len(call.args) > len(params):
+        return None
+    b = dict(zip(params, call.args))
+    for k in call.keywords:
+        if k.arg not in params or k.arg in b:
+            return None
+        b[k.arg] = k.value
+    return b
